@@ -23,6 +23,9 @@ func (e *Engine) AnalyzeRoot(fn *ssa.Function, opt RootOptions) {
 			if i == 0 && fn.Signature.Recv() != nil {
 				obj := "R" + e.vid(p)[1:]
 				st.ptr[e.vid(p)] = Address{Obj: obj}
+				if n, ok := ptr.Elem().(*types.Named); ok {
+					e.objType[obj] = n.Obj().Name()
+				}
 				if opt.ZeroReceiver {
 					e.zeroObject(st, obj, ptr.Elem())
 				}
